@@ -59,7 +59,7 @@ def main():
             rc, out = sh("go test -vet=off -count=1 ./...", cwd=wt)
             suite = "pass" if rc == 0 else "FAIL"
             t0 = time.time()
-            rc, out = sh("VERIF_REPO=%s ./check %s quick" % (wt, prop), cwd=V)
+            rc, out = sh("VERIF_REPO=%s VERIF_EVIDENCE_DIR=%s/.evidence VERIF_REPLAYS_DIR=%s/.replays ./check %s quick" % (wt, wt, wt, prop), cwd=V)
             viol = [l for l in out.splitlines() if l.startswith("VIOLATION")]
             detail = [l for l in out.splitlines() if l.startswith("  class=")]
             caught = rc == 1 and viol
